@@ -13,6 +13,8 @@ pub type Handler = Arc<dyn Fn(&'static str, Value) -> (FunctionResult, u32) + Se
 pub struct ProbeFn {
     pub name: &'static str,
     pub cacheable: bool,
+    /// when present, overrides `cacheable` (the answer may change while a ruleset is evaluated)
+    pub cacheable_flag: Option<Arc<std::sync::atomic::AtomicBool>>,
     pub handler: Handler,
 }
 
@@ -44,10 +46,13 @@ impl UserFunction for ProbeFn {
         self.name
     }
     fn cacheable(&self) -> bool {
-        self.cacheable
+        match &self.cacheable_flag {
+            Some(f) => f.load(std::sync::atomic::Ordering::SeqCst),
+            None => self.cacheable,
+        }
     }
 }
 
 pub fn probe(name: &'static str, cacheable: bool, handler: &Handler) -> ProbeFn {
-    ProbeFn { name, cacheable, handler: handler.clone() }
+    ProbeFn { name, cacheable, cacheable_flag: None, handler: handler.clone() }
 }
